@@ -126,6 +126,11 @@ func VerifyFunction(prog *ssa.Program, db *ContractDB, fn *ssa.Function, fc *Fun
 		}
 	}
 	fv.applyNameAliases()
+	for was, now := range renamedFuncs {
+		if now == fn.String() {
+			fv.renamed = append(fv.renamed, "function (was "+shortName(was)+")")
+		}
+	}
 	for _, r := range fv.renamed {
 		enc.assumedUsed["renamed since the contracts were written, resolved by position (contracts/names.json): "+shortName(fn.String())+": "+r] = true
 	}
